@@ -18,8 +18,9 @@ Nothing here is part of a proof obligation: the theorems are about the originals
 -/
 import Sqfs.Model.ReaderBounds
 import Sqfs.Model.ReaderTables
+import Sqfs.Model.ReaderSizes
 namespace Sqfs.ReaderMut
-open Sqfs Sqfs.ReaderBounds Sqfs.ReaderTables
+open Sqfs Sqfs.ReaderBounds Sqfs.ReaderTables Sqfs.ReaderSizes
 
 /-- a mutant number that matches no site: the copies then compute what the originals compute -/
 def copyId : Nat := 1000000
@@ -39,11 +40,26 @@ def siteNames : Array String := #[
   /- 40 -/ "xload.start", "xload.loc",
   /- 42 -/ "xval.start", "xval.off",
   /- 44 -/ "dirlist.hdr", "dirlist.ent", "dirlist.count", "dirlist.consume",
-  /- 48 -/ "dirent.alloc", "slink.alloc"]
+  /- 48 -/ "dirent.alloc", "slink.alloc",
+  -- width sites (see `wM`): a size / count product or sum computed in a narrower type than the C text says
+  /- 50 -/ "xload.idbytes", "xdesc.pos", "idtable.bytes", "fragtable.bytes", "readtable.size", "readtable.blocks",
+  /- 56 -/ "inode.file.count", "inode.file.bytes", "inode.dirext.needsum", "unpack.namesum", "xval.allocsum"]
+
+/-- first width site: sites from here on have one mutant each (`2k+1`, named `<site>:w<bits>`) -/
+def widthBase : Nat := 50
+
+/-- the narrower type a width site is computed in: 16 bits for `id_count * sizeof(sqfs_u32)` (a `sqfs_u16` count: the
+product fits 32 bits for every count), 32 bits everywhere else -/
+def widthBits (k : Nat) : Nat := if k == 52 then 16 else 32
+
+/-- the mutants of a site -/
+def siteMutants (k : Nat) : List Nat := if k ≥ widthBase then [2 * k + 1] else [2 * k + 1, 2 * k + 2]
 
 def mutName (mu : Nat) : String :=
   if mu == 0 then "none" else
-  siteNames.getD ((mu - 1) / 2) "?" ++ (if mu % 2 == 1 then ":dn" else ":up")
+  let k := (mu - 1) / 2
+  if k ≥ widthBase then siteNames.getD k "?" ++ ":w" ++ toString (widthBits k) else
+  siteNames.getD k "?" ++ (if mu % 2 == 1 then ":dn" else ":up")
 
 /-- the sites whose mutants can change the answer of a driver operation -/
 def opSites (op : String) : List Nat :=
@@ -54,17 +70,19 @@ def opSites (op : String) : List Nat :=
   | "getfrag" => [8, 9, 10]
   | "stream" => [8, 11, 12, 13, 14]
   | "dread" => [8, 15, 16, 17, 18, 19, 20]
-  | "inode" => [21, 22, 23, 49]
-  | "unpack" => [24, 25, 26]
+  | "inode" => [21, 22, 23, 49, 56, 57, 58]
+  | "unpack" => [24, 25, 26, 59]
   | "idx" => [27]
   | "dentry" => [27]
   | "fragidx" => [28]
-  | "xdesc" => [29]
+  | "xdesc" => [29, 51]
   | "super" => [30, 31, 32, 33, 34, 35]
-  | "idtable" => [36]
-  | "fragtable" => [37, 38, 39]
-  | "xload" => [40, 41]
-  | "xval" => [42, 43]
+  | "idtable" => [36, 52]
+  | "fragtable" => [37, 38, 39, 53]
+  | "xload" => [40, 41, 50]
+  | "xval" => [42, 43, 60]
+  -- `allocs`: the sizes the previous operation handed to malloc / calloc / realloc
+  | "allocs" => [50, 52, 53, 54, 55, 56, 57]
   | "dirlist" => [44, 45, 46, 47]
   | "dirent" => [48]
   | _ => []
@@ -80,6 +98,10 @@ def leM (mu k : Nat) (a b : Nat) : Bool := geM mu k b a
 /-- an additive constant of an allocation / length: `dn` = one less, `up` = one more -/
 def addM (mu k : Nat) (c : Nat) : Nat :=
   if mu == 2 * k + 1 then c - 1 else if mu == 2 * k + 2 then c + 1 else c
+
+/-- a width site: the value as it comes out when the expression is evaluated in `widthBits k` bits -/
+def wM (mu k : Nat) (v : UInt64) : UInt64 :=
+  if mu == 2 * k + 1 then (v.toNat % 2 ^ widthBits k).toUInt64 else v
 
 /-! ## `meta_reader.c` -/
 
@@ -261,12 +283,13 @@ def dataReadM (mu : Nat) (bs : UInt32) (words : Nat → UInt32) (blkOk : Nat →
 
 /-- `read_inode_file(_ext)`: site 23 moves the size handed to `alloc_flex` by one block word -/
 def readInodeFileM (mu : Nat) (fileSize blockSize : UInt64) (fragIdx fragOff : UInt32) : Except Err (List Access) :=
-  let count := getBlockCount fileSize blockSize fragIdx fragOff
+  -- site 56: `count` kept in 32 bits; site 57: `count * sizeof(sqfs_u32)` (length of the read) in 32 bits
+  let count := wM mu 56 (getBlockCount fileSize blockSize fragIdx fragOff)
   match allocFlex szInodeGeneric.toUInt64 4 (addM mu 23 count.toNat).toUInt64 with
   | none => .error .overflow
   | some alloc =>
     let cap := alloc.toNat - szInodeGeneric
-    .ok [Access.mk .inodeExtra 0 (count * 4).toNat cap]
+    .ok [Access.mk .inodeExtra 0 (wM mu 57 (count * 4)).toNat cap]
 
 /-- `read_inode_slink`: site 49 moves the `+ 1` of the allocation -/
 def readInodeSlinkM (mu : Nat) (targetSize : UInt32) : Except Err (List Access) :=
@@ -291,7 +314,8 @@ def growLoopM (mu : Nat) (need indexUsed : UInt64) : Nat → UInt64 → Option U
 def dirExtLoopM (mu : Nat) : List UInt32 → (indexMax indexUsed : UInt64) → List Access → Except Err (UInt64 × UInt64 × List Access)
   | [], indexMax, indexUsed, acc => .ok (indexMax, indexUsed, acc)
   | sz :: rest, indexMax, indexUsed, acc =>
-    let need : UInt64 := szDirIndex.toUInt64 + sz.toUInt64 + (addM mu 21 1).toUInt64
+    -- site 58: the sum in 32 bits
+    let need : UInt64 := wM mu 58 (szDirIndex.toUInt64 + sz.toUInt64 + (addM mu 21 1).toUInt64)
     match growLoopM mu need indexUsed 65 indexMax with
     | none => .error .overflow
     | some newSz =>
@@ -321,7 +345,7 @@ def unpackIdxM (mu : Nat) (fixed : Bool) (used : UInt32) (szAt : UInt64 → UInt
       let acc := acc ++ [Access.mk .idxSrc offset.toNat szDirIndex used.toNat]
       let sz := szAt offset
       if index == 0 then
-        if fixed && gtM mu 26 (sz.toUInt64 + 1).toNat (used.toUInt64 - offset - szDirIndex.toUInt64).toNat then (.error .oob, acc)
+        if fixed && gtM mu 26 (wM mu 59 (sz.toUInt64 + 1)).toNat (used.toUInt64 - offset - szDirIndex.toUInt64).toNat then (.error .oob, acc)
         else
           let n2 : UInt64 := if fixed then sz.toUInt64 + 2 else (sz + 2).toUInt64
           let n1 : UInt64 := if fixed then sz.toUInt64 + 1 else (sz + 1).toUInt64
@@ -382,7 +406,7 @@ def idTableReqM (mu : Nat) (s : Super) : Except Err TableReq :=
     let lower := s.dirTableStart
     let lower := if s.fragTableStart > lower && s.fragTableStart < upper then s.fragTableStart else lower
     let lower := if s.exportTableStart > lower && s.exportTableStart < upper then s.exportTableStart else lower
-    .ok ⟨s.idCount.toUInt64 * 4, s.idTableStart, lower, upper⟩
+    .ok ⟨wM mu 52 (s.idCount.toUInt64 * 4), s.idTableStart, lower, upper⟩
 
 def fragTableReqM (mu : Nat) (s : Super) : Except Err (Option TableReq) :=
   if s.flags &&& Consts.flagNoFragments.toUInt16 != 0 then .ok none
@@ -395,19 +419,30 @@ def fragTableReqM (mu : Nat) (s : Super) : Except Err (Option TableReq) :=
     let upper := if s.exportTableStart < s.idTableStart then s.exportTableStart else s.idTableStart
     match mulOv s.fragCount.toUInt64 Consts.sizeofFragment.toUInt64 with
     | none => .error .overflow
-    | some size => .ok (some ⟨size, s.fragTableStart, s.dirTableStart, upper⟩)
+    | some size => .ok (some ⟨wM mu 53 size, s.fragTableStart, s.dirTableStart, upper⟩)
+
+/-- what `sqfs_read_table` hands to the allocator, in order: `malloc(table_size)`, `alloc_array(sizeof(sqfs_u64),
+block_count)` (read_table.c:30-40).  Sites 54 / 55: the size / the block count taken from a 32 bit copy of `table_size`. -/
+def readTableAllocsM (mu : Nat) (tableSize : UInt64) : List UInt64 :=
+  [wM mu 54 tableSize, 8 * tableBlockCount (wM mu 55 tableSize)]
 
 /-! ## `xattr_reader.c` -/
 
-def xattrCheckStartsM (mu : Nat) (bytesUsed : UInt64) (starts : Nat → UInt64) (n : Nat) : Nat → Nat → List Access →
-    Except Err Unit × List Access
-  | 0, _, acc => (.ok (), acc)
-  | rem + 1, i, acc =>
-    let acc := acc ++ [Access.mk .idBlockStarts (i * 8) 8 (n * 8)]
-    if gtM mu 41 (starts i).toNat bytesUsed.toNat then (.error .oob, acc)
-    else xattrCheckStartsM mu bytesUsed starts n rem (i + 1) acc
+/-- site 50: `num_ids * sizeof(sqfs_xattr_id_t)` in 32 bits -/
+def xattrIdBlocksM (mu : Nat) (numIds : UInt64) : UInt64 :=
+  let bytes := wM mu 50 (numIds * szXattrId.toUInt64)
+  if bytes % metaCap.toUInt64 != 0 then bytes / metaCap.toUInt64 + 1 else bytes / metaCap.toUInt64
 
-def xattrLoadM (mu : Nat) (s : Super) (x : XattrSt) (io1 : Bool) (tblStart : UInt64) (ids : UInt32) (io2 : Bool)
+/-- the loop xattr_reader.c:143-150: number of locations looked at, and whether the last one was refused.  (The original
+collects one access per location, `acc ++ [_]`: quadratic, hopeless for the 2^19 … 2^23 locations of the hostile counts;
+location `i < n` is inside the `n * 8` bytes, so one access over everything looked at says the same.) -/
+def xattrCheckStartsM (mu : Nat) (bytesUsed : UInt64) (starts : Nat → UInt64) : Nat → Nat → Nat × Bool
+  | 0, i => (i, false)
+  | rem + 1, i =>
+    if gtM mu 41 (starts i).toNat bytesUsed.toNat then (i + 1, true)
+    else xattrCheckStartsM mu bytesUsed starts rem (i + 1)
+
+def xattrLoadM (mu : Nat) (s : Super) (x : XattrSt) (io1 : Bool) (tblStart : UInt64) (ids : UInt32) (io2 : Nat → Bool)
     (starts : Nat → UInt64) : XRes :=
   if s.flags &&& Consts.flagNoXattrs.toUInt16 != 0 then ⟨x, .ok (), []⟩
   else if s.xattrIdTableStart == 0xFFFFFFFFFFFFFFFF then ⟨x, .ok (), []⟩
@@ -418,17 +453,19 @@ def xattrLoadM (mu : Nat) (s : Super) (x : XattrSt) (io1 : Bool) (tblStart : UIn
     if io1 then ⟨x, .error .io, a1⟩
     else
       let numIds := ids.toUInt64
-      let n := xattrIdBlocks numIds
+      let n := xattrIdBlocksM mu numIds
       let x := { x with xattrStart := tblStart, numIds := numIds, numIdBlocks := n }
       match mulOv 8 n with
       | none => ⟨x, .error .overflow, a1⟩
       | some cap =>
         let a2 := a1 ++ [Access.mk .idBlockStarts 0 (8 * n).toNat cap.toNat]
-        if io2 then ⟨x, .error .io, a2⟩
+        -- `io2 k`: reading `k` bytes of locations fails (the length depends on the mutated block count)
+        if io2 (8 * n).toNat then ⟨x, .error .io, a2⟩
         else
-          match xattrCheckStartsM mu s.bytesUsed starts n.toNat n.toNat 0 a2 with
-          | (.error e, acc) => ⟨x, .error e, acc⟩
-          | (.ok (), acc) =>
+          let (looked, bad) := xattrCheckStartsM mu s.bytesUsed starts n.toNat 0
+          let acc := a2 ++ [Access.mk .idBlockStarts 0 (looked * 8) (n.toNat * 8)]
+          if bad then ⟨x, .error .oob, acc⟩
+          else
             ⟨{ x with blockStarts := starts, loaded := true, idrd := MetaSt.init, kvrd := MetaSt.init,
                       xattrEnd := s.bytesUsed }, .ok (), acc⟩
 
@@ -438,7 +475,8 @@ def xattrGetDescM (mu : Nat) (c : MetaCfg) (x : XattrSt) (idx : UInt32) : XRes :
   else if !x.loaded then ⟨x, if idx == 0 then .ok () else .error .oob, a0⟩
   else if geM mu 29 idx.toNat x.numIds.toNat then ⟨x, .error .oob, a0⟩
   else
-    let pos := idx.toUInt64 * szXattrId.toUInt64
+    -- site 51: `idx * sizeof(*desc)` in 32 bits
+    let pos := wM mu 51 (idx.toUInt64 * szXattrId.toUInt64)
     let offset := pos % metaCap.toUInt64
     let block := pos / metaCap.toUInt64
     let a1 := a0 ++ [Access.mk .idBlockStarts (block.toNat * 8) 8 (x.numIdBlocks.toNat * 8)]
@@ -462,7 +500,8 @@ def readValueHdrM (mu : Nat) (c : MetaCfg) (xs xe : UInt64) (a : KvAns) (m : Met
 
 def kvReadValueM (mu : Nat) (c : MetaCfg) (xs xe : UInt64) (a : KvAns) (m : MetaSt) : RV Unit :=
   (readValueHdrM mu c xs xe a m).bind fun saved m =>
-    match addOv (szXattrValue.toUInt64 + 1) a.vsize.toUInt64 with
+    -- site 60: `sizeof(*out) + 1 + value.size` in 32 bits
+    match (addOv (szXattrValue.toUInt64 + 1) a.vsize.toUInt64).map (wM mu 60) with
     | none => ⟨m, .error .overflow, []⟩
     | some size =>
       let acc := [Access.mk .xattrValOut 0 szXattrValue size.toNat]
